@@ -29,7 +29,7 @@ ASSUMPTIONS = [
 
 
 def plan(tier):
-    return {"runs": 480} if tier == "quick" else {"runs": 1000000, "budget": 1200.0}
+    return {"runs": 480} if tier == "quick" else {"runs": 30000, "budget": 1200.0}
 
 
 def gen_spec(seed, tier):
